@@ -308,7 +308,21 @@ def gen_sequence(rng: random.Random, kind: str, nticks: int):
         ops.append(["tick", t])
         t += jitter(rng, mode)
 
-    if kind == "const":
+    if kind == "edge":
+        # the two edges of the minimum-run-time rounding at a long minimum run time: a positive duty of less than half a
+        # second per period (must be lengthened to min_runtime) and a duty just inside min_runtime of 100 % (continuously on)
+        period, minrt, v = rng.choice([
+            (120, Fraction(5), Fraction(1, 1024)), (120, Fraction(10), Fraction(3, 1024)), (60, Fraction(10), Fraction(1, 256)),
+            (300, Fraction(5), Fraction(1, 1024)), (120, Fraction(5), Fraction(1024 - 42, 1024)), (60, Fraction(10), Fraction(1024 - 170, 1024)),
+            (120, Fraction(10), Fraction(1024 - 84, 1024)), (30, Fraction(5), Fraction(1, 128))])
+        ops[0][1], ops[0][2] = frs(period), frs(minrt)
+        meta.update({"kind": "const", "period": period, "minrt": frs(minrt)})
+        kind = "const"
+        meta["duty"] = frs(v)
+        ops.append(["value", frs(v)])
+        for _ in range(max(nticks, period * 6)):
+            tick()
+    elif kind == "const":
         v = dyadic_duty(rng)
         meta["duty"] = frs(v)
         ops.append(["value", frs(v)])
